@@ -13,6 +13,8 @@ extern uint64_t g_thr_step_cap;
 
 namespace {
 
+std::string g_asset_dir;      // set by execute() before any worker thread exists (memory the main thread wrote before start is ordered by thread start)
+
 struct Job { const Json * plan; std::vector<std::vector<size_t>> by_thread; std::vector<Json> outs; int last_started = -1; };
 
 std::string one_conv(const Json & op, const std::string & doc) {
@@ -20,6 +22,9 @@ std::string one_conv(const Json & op, const std::string & doc) {
 	unsigned long ext = (unsigned long)op.geti("ext");
 	short fmt = (short)op.geti("fmt"), lang = (short)op.geti("lang");
 	std::string out;
+	// package formats may collect their assets from a real (read-only) directory shipped with the simulator: the asset readers and the zip
+	// assembly then run under the scheduler too
+	const char * dir = op.getb("dir") ? g_asset_dir.c_str() : NULL;
 	if (kind == "META") {
 		// the other text-accepting entry points an embedder calls from its threads: metadata queries and an update
 		std::string c = doc; size_t end = 0;
@@ -71,11 +76,11 @@ std::string one_conv(const Json & op, const std::string & doc) {
 		mmd_engine_free(e, true);
 	} else if (fam == "s") {
 		if (call == "convert") { char * r = mmd_string_convert(doc.c_str(), ext, fmt, lang); if (r) out = r; free(r); }
-		else { DString * r = mmd_string_convert_to_data(doc.c_str(), ext, fmt, lang, NULL); if (r) { out.assign(r->str, r->currentStringLength); d_string_free(r, true); } }
+		else { DString * r = mmd_string_convert_to_data(doc.c_str(), ext, fmt, lang, dir); if (r) { out.assign(r->str, r->currentStringLength); d_string_free(r, true); } }
 	} else {
 		DString * d = d_string_new(doc.c_str());
 		if (call == "convert") { char * r = mmd_d_string_convert(d, ext, fmt, lang); if (r) out = r; free(r); }
-		else { DString * r = mmd_d_string_convert_to_data(d, ext, fmt, lang, NULL); if (r) { out.assign(r->str, r->currentStringLength); d_string_free(r, true); } }
+		else { DString * r = mmd_d_string_convert_to_data(d, ext, fmt, lang, dir); if (r) { out.assign(r->str, r->currentStringLength); d_string_free(r, true); } }
 		d_string_free(d, true);
 	}
 	return out;
@@ -155,7 +160,7 @@ struct ThrEngine : Engine {
 				o["doc"] = (int64_t)w.below((uint64_t)ndocs);
 				static const int allf[] = {FMT_HTML, FMT_HTML, FMT_HTML, FMT_LATEX, FMT_BEAMER, FMT_MEMOIR, FMT_FODT, FMT_OPML, FMT_ITMZ, FMT_MMD, FMT_HTML_WITH_ASSETS};
 				o["fmt"] = allf[w.below(11)];
-				if (use_pkg && o.gets("family") != "e" && w.chance(1, 2)) { static const int pf[] = {FMT_EPUB, FMT_ODT, FMT_TEXTBUNDLE_COMPRESSED}; o["fmt"] = pf[w.below(3)]; o["call"] = "to_data"; }
+				if (use_pkg && o.gets("family") != "e" && w.chance(1, 2)) { static const int pf[] = {FMT_EPUB, FMT_ODT, FMT_TEXTBUNDLE_COMPRESSED}; o["fmt"] = pf[w.below(3)]; o["call"] = "to_data"; if (w.chance(1, 2)) o["dir"] = true; }
 				o["ext"] = (int64_t)gen_ext(w, allow_random);
 				o["lang"] = (int64_t)w.below(7);
 				if (use_other) {
@@ -186,6 +191,7 @@ struct ThrEngine : Engine {
 
 	Json execute(const Json & plan, bool verbose) override {
 		apply_env(plan);
+		g_asset_dir = std::string(getenv("MMDSIM_VERIF") ? getenv("MMDSIM_VERIF") : "/verif") + "/sim/data/assets";
 		int nthreads = (int)plan.geti("nthreads", 2);
 		const Json & ops = plan.at("ops");
 		Job job;
